@@ -138,6 +138,46 @@ def _shard(shard) -> Dict[str, Any]:
     return out
 
 
+def dispatcher_probe(c: Check):
+    """the third clause at the API level: in every kind of dispatcher pass (no fleets / a named fleet / the pass of the
+    fleet-less) a human driver who is off shift gets no DispatchTrip, one who is on shift does"""
+    from .enum_dispatch import Ctx
+    from .worlds import sites
+    from nrel.hive.state.driver_state.human_driver_state.human_driver_attributes import HumanDriverAttributes
+    from nrel.hive.state.driver_state.human_driver_state.human_driver_state import HumanAvailable, HumanUnavailable
+    from nrel.hive.state.simulation_state import simulation_state_ops
+
+    S = sites()
+    n = 0
+    positive = 0
+    for declared in ((), ("f1",), ("f1", "f2")):
+        ctx = Ctx(tuple(declared))
+        for vfleet in ("member", "none"):
+            for rkind in ("fleet", "public"):
+                if not declared and (vfleet == "member" or rkind == "fleet"):
+                    pass  # without declared fleets memberships are ignored; still a valid case
+                for on_shift in (True, False):
+                    v = ctx.vehicle(0, S["A"], "eligible" if vfleet == "member" else "no_fleet")
+                    attrs = HumanDriverAttributes(v.id, "sched", "hb", False)
+                    v = v.modify_driver_state(HumanAvailable(attrs) if on_shift else HumanUnavailable(attrs))
+                    r = ctx.request(0, S["N1"], "waiting" if rkind == "fleet" else "public")
+                    sim = ctx.sim([v], [r])
+                    _, instrs = ctx.dispatcher.generate_instructions(sim, ctx.env)
+                    n += 1
+                    got = [(i.vehicle_id, i.request_id) for i in instrs]
+                    if not on_shift and got:
+                        c.add(Finding("C20", ("dispatched_off_shift", "api_level", "pass_of_the_fleetless" if (declared and vfleet == "none") else ("named_fleet" if declared else "no_fleets")),
+                                      f"declared fleets {list(declared)}, vehicle {vfleet}, request {rkind}: the dispatcher pairs an OFF-shift human driver: {got}",
+                                      {"engine": "enum_shift", "probe": True}))
+                    if on_shift and got:
+                        positive += 1
+    c.coverage["dispatcher_probe_cases"] = n
+    c.coverage["dispatcher_probe_on_shift_pairs"] = positive
+    if positive == 0:
+        c.vacuous.append("dispatcher probe: no on-shift driver was ever paired")
+    log(f"  C20 dispatcher probe: {n} cases, {positive} on-shift pairings")
+
+
 def c20() -> int:
     c = Check("C20", "bounded exhaustive enumeration of shift tables x step lengths x start times through load_scenario and crank, against an interval reference")
     quick = tier() == "quick"
@@ -165,6 +205,7 @@ def c20() -> int:
     c.exhaustive = True
     c.assumptions += ["availability is read after the step; the reference uses the time at which the step began"]
     log(f"  C20: {len(shards)} runs, {sched_steps} (schedule, step) instances, {flips} flips, {c.coverage['dispatcher_pairs']} dispatcher pairs")
+    dispatcher_probe(c)
     if c.coverage["dispatcher_pairs"] == 0:
         c.vacuous.append("dispatcher never assigned anything")
     return c.finish()
@@ -172,6 +213,16 @@ def c20() -> int:
 
 def replay(body) -> int:
     rp = body["replay"]
+    if rp.get("probe"):
+        c = Check("C20", "probe")
+        dispatcher_probe(c)
+        for f in c.findings.values():
+            print(" | ".join(f.signature), "::", f.message)
+        if c.findings:
+            print(f"VIOLATION property=C20 replay={body.get('_path')}")
+            return 1
+        print("not reproduced on this tree")
+        return 0
     r = _shard((rp["step"], rp["start"]))
     for sig, msg, _ in r["findings"]:
         print(" | ".join(sig), "::", msg)
